@@ -104,8 +104,30 @@ func solveOne(o *Obligation, opts solveOpts) {
 		return
 	}
 	o.Query = file
-	if o.Cover && opts.timeoutS > 2 && !opts.agree {
-		opts.timeoutS = 2
+	if o.Cover {
+		// reachability: any definite answer of any solver counts; unsat (unreachable) must not be
+		// missed because one solver gave up, so all solvers are raced with a short timeout
+		if opts.timeoutS > 4 && !opts.agree {
+			opts.timeoutS = 4
+		}
+		type r struct{ name, st string }
+		ch := make(chan r, len(solvers))
+		for _, s := range solvers {
+			go func(s SolverCfg) {
+				st, _, _ := runSolver(context.Background(), s, mustWrite(opts.workdir, o), opts)
+				ch <- r{s.Name, st}
+			}(s)
+		}
+		o.Status = "unknown"
+		for range solvers {
+			x := <-ch
+			if x.st == "unsat" {
+				o.Status, o.Backend = "unsat", x.name
+			} else if x.st == "sat" && o.Status != "unsat" {
+				o.Status, o.Backend = "sat", x.name
+			}
+		}
+		return
 	}
 	t0 := time.Now()
 	defer func() { o.TimeS = time.Since(t0).Seconds() }()
@@ -255,4 +277,10 @@ func solveAll(obls []*Obligation, opts solveOpts) {
 		}(o)
 	}
 	wg.Wait()
+}
+
+func mustWrite(dir string, o *Obligation) string {
+	file := filepath.Join(dir, sanitizeFile(o.Name)+".cover.smt2")
+	os.WriteFile(file, []byte(o.queryText(false)), 0o644)
+	return file
 }
